@@ -217,7 +217,16 @@ fn gen_case(rng: &mut Rng) -> Case {
         resets: vec![],
         cfg: [rng.u8(), rng.u8(), rng.u8(), rng.u8(), rng.u8()],
         flags: [rng.bool(), rng.bool(), rng.bool(), rng.bool(), rng.bool()],
-        volts: [rng.below(600) as f32 / 100.0, rng.below(500) as f32 / 100.0, rng.below(300) as f32 / 100.0],
+        volts: {
+            // mostly ordinary voltages; now and then what a user may also type: not a number, infinity, far too much
+            let mut v = [rng.below(600) as f32 / 100.0, rng.below(500) as f32 / 100.0, rng.below(300) as f32 / 100.0];
+            for x in v.iter_mut() {
+                if rng.chance(1, 8) {
+                    *x = *rng.pick(&[f32::NAN, f32::INFINITY, 7.5, 1.0e9, 5.0, 2.55, 0.0]);
+                }
+            }
+            v
+        },
     };
     let halt = halting_cycle(&c);
     c.budget = match rng.below(8) {
@@ -266,6 +275,8 @@ fn witness(c: &Case) -> J {
         ("cfg_fc_fd_fe_ff_di1", c.cfg.to_vec()),
         ("flags_j1_j2_uio1_uio2_uio3", J::Arr(c.flags.iter().map(|b| J::Bool(*b)).collect())),
         ("volts_temp_ai1_ai2_x100", vec![(c.volts[0] * 100.0).round() as i64, (c.volts[1] * 100.0).round() as i64, (c.volts[2] * 100.0).round() as i64]),
+        ("volts_temp_ai1_ai2_f32_bits", vec![c.volts[0].to_bits() as i64, c.volts[1].to_bits() as i64, c.volts[2].to_bits() as i64]),
+        ("volts_temp_ai1_ai2_text", J::Arr(c.volts.iter().map(|v| J::from(format!("{}", v))).collect())),
     ]
 }
 
@@ -282,7 +293,14 @@ fn case_from(w: &J) -> Case {
         resets: us("resets"),
         cfg: [cfg.get(0).copied().unwrap_or(0), cfg.get(1).copied().unwrap_or(0), cfg.get(2).copied().unwrap_or(0), cfg.get(3).copied().unwrap_or(0), cfg.get(4).copied().unwrap_or(0)],
         flags: [fl[0], fl[1], fl[2], fl[3], fl[4]],
-        volts: [vo.get(0).copied().unwrap_or(0) as f32 / 100.0, vo.get(1).copied().unwrap_or(0) as f32 / 100.0, vo.get(2).copied().unwrap_or(0) as f32 / 100.0],
+        volts: {
+            let bits = us("volts_temp_ai1_ai2_f32_bits");
+            if bits.len() == 3 {
+                [f32::from_bits(bits[0] as u32), f32::from_bits(bits[1] as u32), f32::from_bits(bits[2] as u32)]
+            } else {
+                [vo.get(0).copied().unwrap_or(0) as f32 / 100.0, vo.get(1).copied().unwrap_or(0) as f32 / 100.0, vo.get(2).copied().unwrap_or(0) as f32 / 100.0]
+            }
+        },
     }
 }
 
